@@ -1080,6 +1080,8 @@ class Interp:
             return self.obj_attr(base, attr, frame, st, node)
         if ty == 'class':
             ci = self.p.classes.get(base.cls)
+            if ci is not None and ci.is_namedtuple and attr == '_make':
+                return AV(ty='opcaller', kind='nt_make', cls=base.cls)  # NamedTuple._make(iterable): the record built from the items in order
             if ci is not None:
                 fi = self.p.find_method(ci, attr)
                 if fi is not None:
@@ -1107,6 +1109,8 @@ class Interp:
         heap = st.heap.setdefault(base.oid, {})
         if attr == '__class__':
             return AV(ty='class', cls=base.cls)
+        if attr == '_asdict' and ci is not None and ci.is_namedtuple:
+            return AV(ty='opcaller', kind='nt_asdict', recv=base)  # record._asdict(): field name -> value
         if attr == '__dict__':
             # the instance dictionary: used for private per-object caches
             return AV(ty='dict', open_kw=True, instance_dict_of=base.oid, deps=base.deps)
@@ -1162,6 +1166,9 @@ class Interp:
                 v = self.eval(a.value, frame, st)
                 if v.elts is not None:
                     args.extend(v.elts)
+                elif v.ty == 'obj' and v.cls in self.p.classes and self.p.classes[v.cls].is_namedtuple and v.oid in st.heap \
+                        and all(f[0] in st.heap[v.oid] for f in self.p.classes[v.cls].fields):
+                    args.extend(st.heap[v.oid][f[0]] for f in self.p.classes[v.cls].fields)  # f(*record): the fields in declaration order
                 elif v.ty == 'dictvalues' and v.of is not None and v.of.kw and not v.of.open_kw and v.of.elem is not None and len(v.of.kw) <= 16:
                     args.extend(v.of.kw.values())  # f(*d.values()) of a dict with known entries (insertion order)
                 else:
@@ -1237,6 +1244,11 @@ class Interp:
         if ty == 'symfunc':
             self.emit('symfunc_call', n, name=func.name, args=list(args), kwargs=dict(kwargs))
             return AV(ty=None, symresult=func.name)
+        if ty == 'opcaller' and func.kind == 'nt_asdict' and not args:
+            flds = dict(st.heap.get(func.recv.oid, {})) if func.recv.oid in st.heap else dict(func.recv.nt_fields or {})
+            return AV(ty='dict', kw=flds, fresh=True, deps=func.recv.deps)
+        if ty == 'opcaller' and func.kind == 'nt_make' and len(args) == 1 and args[0].elts is not None:
+            return self.construct(func.cls, list(args[0].elts), {}, frame, st, n)
         if ty == 'opcaller' and len(args) == 1:
             # operator.methodcaller / attrgetter / itemgetter applied to one object
             obj = args[0]
